@@ -20,6 +20,16 @@ type Env struct {
 	// iterator context for `visited(k)` inside loop invariants
 	visited func(k string) (string, bool)
 	pre     *State // loop-entry state (for pre(e) in loop invariants)
+	// quantifier anchoring (see evalQuant): slice accesses s[i] by a bound variable are
+	// rewritten to absolute positions so that the SMT trigger contains no arithmetic
+	probe   *anchorProbe
+	anchors map[*SIndex]string
+}
+
+type anchorProbe struct {
+	vars   map[string]string // bound variable name -> SMT symbol
+	found  map[string]*SIndex
+	shift  map[string]string
 }
 
 func (e *Env) with(name string, v Val) *Env {
@@ -167,10 +177,21 @@ func (e *Env) Eval(x SExpr) Val {
 		switch u := under(xv.T).(type) {
 		case *types.Map:
 			k := e.coerce(e.Eval(n.I), u.Key())
-			return e.hp().mapGet(e.cur, xv, k.S)
+			mv := e.hp().mapGet(e.cur, xv, k.S)
+			e.x.noteLoaded(e.cur, mv)
+			return mv
 		case *types.Slice:
+			if abs, ok := e.anchors[n]; ok {
+				p := Val{T: types.NewPointer(u.Elem()), S: xv.Fs[0].S, P: &Ptr{Kind: ptrElem, Root: u.Elem(), Idx: abs}}
+				return e.hp().load(e.cur, p, u.Elem())
+			}
+			if e.probe != nil {
+				e.probeAnchor(n, xv)
+			}
 			i := e.coerce(e.Eval(n.I), intT)
-			return e.hp().load(e.cur, e.hp().elemPtr(xv, i.S), u.Elem())
+			ev := e.hp().load(e.cur, e.hp().elemPtr(xv, i.S), u.Elem())
+			e.x.noteLoaded(e.cur, ev)
+			return ev
 		case *types.Basic:
 			if isString(xv.T) {
 				i := e.coerce(e.Eval(n.I), intT)
@@ -198,34 +219,7 @@ func (e *Env) Eval(x SExpr) Val {
 	case *SCall:
 		return e.evalCall(n)
 	case *SQuant:
-		env := e
-		var binders []string
-		var guards []string
-		for _, v := range n.Vars {
-			t := e.x.resolveType(v.Type, e.pkg)
-			if !isScalar(t) {
-				sfail("quantified variable %s must have scalar type", v.Name)
-			}
-			name := sym(e.vc().fresh("q_" + v.Name))
-			binders = append(binders, "("+name+" "+e.vc().sortOf(t)+")")
-			qv := Val{T: t, S: name}
-			if p, ok := under(t).(*types.Pointer); ok {
-				qv.P = &Ptr{Kind: ptrObj, Root: p.Elem()}
-			}
-			if g := e.hp().typeAssume(e.cur, t, name); g != "true" && !isPointer(t) {
-				guards = append(guards, g)
-			}
-			env = env.with(v.Name, qv)
-		}
-		body := env.EvalBool(n.Body)
-		q := "forall"
-		if !n.Forall {
-			q = "exists"
-			body = And(append(guards, body)...)
-		} else {
-			body = Implies(And(guards...), body)
-		}
-		return boolVal("(" + q + " (" + strings.Join(binders, " ") + ") " + body + ")")
+		return e.evalQuant(n)
 	case *SLet:
 		v := e.Eval(n.X)
 		return e.with(n.Name, v).Eval(n.Body)
@@ -385,7 +379,9 @@ func (e *Env) selField(xv Val, name string) Val {
 			xv.P = &Ptr{Kind: ptrObj, Root: p.Elem()}
 		}
 		fp := e.x.fieldAddrPath(xv, p.Elem(), path)
-		return e.hp().load(e.cur, fp, ft)
+		lv := e.hp().load(e.cur, fp, ft)
+		e.x.noteLoaded(e.cur, lv)
+		return lv
 	}
 	if st, ok := under(xv.T).(*types.Struct); ok {
 		for i := 0; i < st.NumFields(); i++ {
@@ -438,6 +434,16 @@ func (e *Env) evalCall(n *SCall) Val {
 	case "cap":
 		v := arg(0)
 		return Val{T: intT, S: v.Fs[3].S}
+	case "base":
+		// base(s): reference of the backing array of slice s (0 for a nil slice)
+		v := arg(0)
+		if _, ok := under(v.T).(*types.Slice); !ok {
+			sfail("base: not a slice")
+		}
+		return Val{T: intT, S: v.Fs[0].S}
+	case "off":
+		v := arg(0)
+		return Val{T: intT, S: v.Fs[1].S}
 	case "has":
 		m := arg(0)
 		mt, ok := under(m.T).(*types.Map)
@@ -709,4 +715,142 @@ func (x *Exec) constVal(t types.Type, c constant.Value) Val {
 		return Val{T: t, S: s}
 	}
 	return vc.zeroVal(t)
+}
+
+// evalQuant evaluates a quantifier.  Integer variables that index a slice (s[i],
+// s[i+e], s[e+i]) are re-expressed over the absolute position j = off(s)+e+i, so
+// that the instantiation trigger is select(arr, j) without arithmetic (solvers do
+// not match triggers like select(arr, off+i) reliably).
+func (e *Env) evalQuant(n *SQuant) Val {
+	type qv struct {
+		name string
+		t    types.Type
+		symb string
+	}
+	var vars []qv
+	for _, v := range n.Vars {
+		t := e.x.resolveType(v.Type, e.pkg)
+		if !isScalar(t) {
+			sfail("quantified variable %s must have scalar type", v.Name)
+		}
+		vars = append(vars, qv{v.Name, t, sym(e.vc().fresh("q_" + v.Name))})
+	}
+	bind := func(shift map[string]string, anchors map[*SIndex]string, probe *anchorProbe) (string, []string) {
+		env := *e
+		env.vars = make(map[string]Val, len(e.vars)+len(vars))
+		for k, x := range e.vars {
+			env.vars[k] = x
+		}
+		env.probe = probe
+		env.anchors = map[*SIndex]string{}
+		for k, a := range e.anchors {
+			env.anchors[k] = a
+		}
+		for k, a := range anchors {
+			env.anchors[k] = a
+		}
+		var guards []string
+		for _, v := range vars {
+			val := Val{T: v.t, S: v.symb}
+			if sh, ok := shift[v.name]; ok {
+				val.S = app("-", v.symb, sh)
+			}
+			if p, ok := under(v.t).(*types.Pointer); ok {
+				val.P = &Ptr{Kind: ptrObj, Root: p.Elem()}
+				guards = append(guards, And(app("<", "0", v.symb), app("<", v.symb, e.hp().alloc(e.cur))))
+			}
+			if isUnsigned(v.t) && !e.vc().BV {
+				guards = append(guards, app("<=", "0", val.S))
+			}
+			env.vars[v.name] = val
+		}
+		return env.EvalBool(n.Body), guards
+	}
+	for _, v := range vars {
+		e.x.qsyms = append(e.x.qsyms, v.symb)
+	}
+	defer func() { e.x.qsyms = e.x.qsyms[:len(e.x.qsyms)-len(vars)] }()
+	// pass 1: probe for anchors
+	probe := &anchorProbe{vars: map[string]string{}, found: map[string]*SIndex{}, shift: map[string]string{}}
+	for _, v := range vars {
+		if isInteger(v.t) && !e.vc().BV {
+			probe.vars[v.name] = v.symb
+		}
+	}
+	body, guards := bind(nil, nil, probe)
+	if len(probe.found) > 0 {
+		anchors := map[*SIndex]string{}
+		for name, node := range probe.found {
+			anchors[node] = probe.vars[name]
+		}
+		body, guards = bind(probe.shift, anchors, nil)
+	}
+	var binders []string
+	for _, v := range vars {
+		binders = append(binders, "("+v.symb+" "+e.vc().sortOf(v.t)+")")
+	}
+	q := "forall"
+	if !n.Forall {
+		q = "exists"
+		body = And(append(guards, body)...)
+	} else {
+		body = Implies(And(guards...), body)
+	}
+	return boolVal("(" + q + " (" + strings.Join(binders, " ") + ") " + body + ")")
+}
+
+// probeAnchor records s[i] / s[i+e] / s[e+i] / s[i-e] (i bound, e free of bound variables).
+func (e *Env) probeAnchor(n *SIndex, xv Val) {
+	pr := e.probe
+	var vname string
+	var extra SExpr
+	neg := false
+	switch ix := n.I.(type) {
+	case *SIdent:
+		vname = ix.Name
+	case *SBinary:
+		if ix.Op == "+" || ix.Op == "-" {
+			if id, ok := ix.X.(*SIdent); ok {
+				if _, isVar := pr.vars[id.Name]; isVar {
+					vname, extra, neg = id.Name, ix.Y, ix.Op == "-"
+				}
+			}
+			if vname == "" && ix.Op == "+" {
+				if id, ok := ix.Y.(*SIdent); ok {
+					if _, isVar := pr.vars[id.Name]; isVar {
+						vname, extra = id.Name, ix.X
+					}
+				}
+			}
+		}
+	}
+	if vname == "" {
+		return
+	}
+	if _, isVar := pr.vars[vname]; !isVar {
+		return
+	}
+	if _, done := pr.found[vname]; done {
+		return
+	}
+	// the variable must be bound by *this* quantifier and not shadowed
+	if cur, ok := e.vars[vname]; !ok || cur.S != pr.vars[vname] {
+		return
+	}
+	shift := xv.Fs[1].S
+	if extra != nil {
+		ev := e.coerce(e.Eval(extra), intT)
+		if neg {
+			shift = app("-", shift, ev.S)
+		} else {
+			shift = app("+", shift, ev.S)
+		}
+	}
+	for _, symb := range pr.vars {
+		if strings.Contains(shift, symb) || strings.Contains(xv.Fs[0].S, symb) {
+			return
+		}
+	}
+	pr.found[vname] = n
+	pr.shift[vname] = shift
 }
